@@ -15,7 +15,12 @@ predicates on the real code (see MONITORED), among them fresh-object equivalence
 observation in a random history equals that of a newly constructed object given the settings in force
 only; failing histories are delta-debugged and stored as replayable call lists) and input-form
 equivalence (part G: the same tensor as 6x6 / 3x3x3x3 / nested lists / property assignment / elastic
-constants / moduli pairs gives the same stored tensor, parameters and energies)."""
+constants / moduli pairs gives the same stored tensor, parameters and energies) and orientation of the particle axes
+(part H: `_beta` against the code's own `_n`; every energy under the joint relabelling of the coordinate axes of semi-axes,
+eigenstrain and stiffness by the 24 proper cube operations and the three transpositions, for tri-axial ellipsoids and spheroids
+about x, y and z in isotropic / cubic / misaligned-cubic matrices on six quadrature schemes; textbook Eshelby tensor of spheroids
+about each axis and of tri-axial ellipsoids).  The model side of part H: `quadForm`, `betaSqSC`, `perm6`, `betaSqMirrored` of
+KawinV.Elastic are evaluated by the driver verb el.beta.axes at the traced `_n` and compared with the real `_beta`."""
 import itertools, math, os, sys, traceback
 import numpy as np
 import vlib
@@ -23,7 +28,7 @@ from vlib import Result, enc_list, f2b, Toks, close
 
 PROP = 'C16'
 META = {
-    'level_text': 'Lean 4 theorems about definitions REGENERATED on every run from ElasticFactors.py by a concolic tracer (all 15 input-pair branches of moduliToC, Khachaturyan sphere/cube, constant description, Cramer 3x3 inverse, _beta, _n) and about a hand model (KawinV.Elastic) of the tensor-rank conversions, rotations, the repaired invert4rankTensor, the Eshelby energy skeleton (sphInt/Dijkl/Sijmn/Ellipsoid/Bohm over an arbitrary node list) and the StrainEnergy setter state machine with update() as coded after the repairs: rank conversions round-trip (every 6x6; every 4th-rank tensor with the minor symmetries), rotation keeps the minor symmetries, Cramer inverse is a two-sided inverse and the only one when det != 0, every moduliToC branch returns the compliance of the textbook (E, nu, G) for consistent input (sqrt branches under explicit sign hypotheses; the E-M branch is proved to return the OTHER root for negative nu), compliance x stiffness = 1, Khachaturyan on isotropic constants = 2G(1+nu)/(1-nu) eps^2 V, size scaling E(s r) = s^3 E(r) and eigenstrain scaling E(c eps) = c^2 E(eps) for Khachaturyan, constant, Ellipsoid and Bohm, homogeneous inclusion Bohm = Ellipsoid, the repaired invert4rankTensor is the inverse on minor-symmetric tensors (and the unweighted one is not: witness), the final parameters of any setter sequence are a function of the final (rotation, rotationPrec, stiffnesses, applied stress) only (false of the code before commit 187e553: witness), and in a family of live objects an interleaved call sequence leaves every object in the state its own calls alone produce (runFam_independent; negative witness fillDiagonal_leaks for an in-place write into the class-level array that StrainEnergyParameters shares between objects); history purity of one object: in the history model (setters, quadrature setters, compute calls interleaved; KawinV.Elastic.hrun, tied to the code by correspondence on every compute result) two histories that end with the same settings answer compute(r) identically, so a used object equals a fresh one given the final settings (history_fresh_equiv); for an object that keeps a memo table of a kernel (abstract: settings, kernel inputs, key, kernel; KawinV.Elastic.Memo) every result equals that of an object without a table provided every setter that changes a kernel input empties the table and equal keys mean equal kernel values (memo_sound, memo_fresh_equiv; instance for Dijkl inside StrainEnergy: eshelby_memo_sound, only the eigenstrain setters may skip the clearing: eig_setters_keep_kernel_input), and a table keyed by the radii alone that a stiffness setter does not empty returns the stale value (memo_stale_witness, memo_stale_witness_unsound).',
+    'level_text': 'Lean 4 theorems about definitions REGENERATED on every run from ElasticFactors.py by a concolic tracer (all 15 input-pair branches of moduliToC, Khachaturyan sphere/cube, constant description, Cramer 3x3 inverse, _beta, _n) and about a hand model (KawinV.Elastic) of the tensor-rank conversions, rotations, the repaired invert4rankTensor, the Eshelby energy skeleton (sphInt/Dijkl/Sijmn/Ellipsoid/Bohm over an arbitrary node list) and the StrainEnergy setter state machine with update() as coded after the repairs: rank conversions round-trip (every 6x6; every 4th-rank tensor with the minor symmetries), rotation keeps the minor symmetries, Cramer inverse is a two-sided inverse and the only one when det != 0, every moduliToC branch returns the compliance of the textbook (E, nu, G) for consistent input (sqrt branches under explicit sign hypotheses; the E-M branch is proved to return the OTHER root for negative nu), compliance x stiffness = 1, Khachaturyan on isotropic constants = 2G(1+nu)/(1-nu) eps^2 V, size scaling E(s r) = s^3 E(r) and eigenstrain scaling E(c eps) = c^2 E(eps) for Khachaturyan, constant, Ellipsoid and Bohm, homogeneous inclusion Bohm = Ellipsoid, the repaired invert4rankTensor is the inverse on minor-symmetric tensors (and the unweighted one is not: witness), the final parameters of any setter sequence are a function of the final (rotation, rotationPrec, stiffnesses, applied stress) only (false of the code before commit 187e553: witness), and in a family of live objects an interleaved call sequence leaves every object in the state its own calls alone produce (runFam_independent; negative witness fillDiagonal_leaks for an in-place write into the class-level array that StrainEnergyParameters shares between objects); history purity of one object: in the history model (setters, quadrature setters, compute calls interleaved; KawinV.Elastic.hrun, tied to the code by correspondence on every compute result) two histories that end with the same settings answer compute(r) identically, so a used object equals a fresh one given the final settings (history_fresh_equiv); for an object that keeps a memo table of a kernel (abstract: settings, kernel inputs, key, kernel; KawinV.Elastic.Memo) every result equals that of an object without a table provided every setter that changes a kernel input empties the table and equal keys mean equal kernel values (memo_sound, memo_fresh_equiv; instance for Dijkl inside StrainEnergy: eshelby_memo_sound, only the eigenstrain setters may skip the clearing: eig_setters_keep_kernel_input), and a table keyed by the radii alone that a stiffness setter does not empty returns the stale value (memo_stale_witness, memo_stale_witness_unsound); axis convention of the ellipsoid: the traced _beta squared is the quadratic form sum (r_i n_i)^2 with the SAME index pairing as the traced _n (beta_sq_eq_quadratic_form, beta_eq_sqrt_quadForm), the quadratic form and the model distance are invariant under every joint permutation of the axes of (semi-axes, direction) (quadForm_joint_permutation, betaN_joint_permutation, beta_joint_permutation for the traced pair at azimuth pi/2 - phi), the x<->y mirrored radius function differs by (a^2-b^2)(sin^2 phi - cos^2 phi) sin^2 theta, i.e. for every particle with r[0] != r[1] and never for r[0] = r[1] (betaSqMirrored_sub, betaSqMirrored_ne, betaSqMirrored_eq_of_equal_axes; exact rational witness beta_mirrored_differs), and the quadrature sum is covariant: a jointly invariant distance function, a covariant kernel and a node table mapped to itself give D(relabelled particle)_ijkl = D_{s(i)s(j)s(k)s(l)} (sphInt_joint_permutation, Dijkl_joint_permutation; hypotheses discharged for x<->y and a cubic / isotropic stiffness along the axes: Dijkl_swap_cubic).',
     'level_note': 'MONITORED only (oracle on the real code, not proved): energy >= 0 for positive-definite stiffness; rotation invariance; textbook Eshelby tensor components of the isotropic sphere; Lebedev exactness on monomials up to the stated order on every table; agreement of the 6x6 and 4th-rank energy variants and of the two 3x3 inversion routines; Bohm against an independent 9x9 reference. The Lebedev tables produced by loadPoints are NOT exact (finding lebedev-inexact-order*): analytic clauses that depend on the quadrature are evaluated twice, with the code\'s own nodes (failures carry the finding key) and with an independent Gauss-Legendre x trapezoid rule injected into the real description (must pass). Trusted: Lean kernel + Mathlib, axioms propext/Classical.choice/Quot.sound; tools/py2lean/sym.py (validated numerically on every run); the hand model equals the NumPy code as far as this run compared them; np.linalg.inv is modelled as "an inverse" (abstract in the theorems, Gauss-Jordan in the driver); exact-field arithmetic instead of IEEE doubles; sqrt/sin/cos are atoms with the laws used stated as hypotheses and discharged for the real numbers.',
     'technique': 'Lean 4 proof over generated definitions (py2lean) + hand model/state machine + differential correspondence + analytic oracle',
     'design_ref': 'DESIGN.md section 6, C16',
@@ -38,6 +43,7 @@ MONITORED = [
     'isotropic sphere: Ellipsoid/Bohm/Khachaturyan energy = 2G(1+nu)/(1-nu) eps^2 V',
     'history purity on the real code: random call sequences on ONE StrainEnergy object (all setters in all input forms incl. property assignment and setShape by name / instance, setLebedevIntegration / setIntegrationIntervals / setOhmInverseFunction on the description, setAspectRatioResolution / setInterfacialEnergyMethod / clearCache, mixed with compute on one or several radii triples, the five energy variants, eqAR_bySearch / eqAR_byGR at repeated and varying aspect ratios): every observation equals that of a freshly constructed object given only the settings in force; the description kind follows the calls (finding history:eqAR_bySearch:stale-aspect-ratio-table: the aspect-ratio table of eqAR_bySearch is never invalidated)',
     'input-form equivalence on the real code: the same matrix / precipitate stiffness as 6x6, 3x3x3x3, nested lists, property assignment, elastic constants, three random moduli pairs (precipitate different from the matrix, with and without rotations, either side first) and the same eigenstrain / applied stress as scalar, 3-vector, matrix: stored tensor = the supplied tensor (expanded independently), same parameters, same energies',
+    'orientation of the particle axes on the real code: _beta(a,b,c,phi,theta) = sqrt((a n_x)^2+(b n_y)^2+(c n_z)^2) with n = the code\'s own _n, and unchanged under joint relabelling of (semi-axes, direction); compute / strainEnergyEllipsoid of tri-axial ellipsoids (random choice of the longest axis) and of spheroids about x, y, z, diagonal (e11 != e22 != e33) and full symmetric eigenstrain, isotropic / cubic / misaligned cubic matrix with equal or different precipitate stiffness, are unchanged when the coordinate axes are relabelled (24 proper cube operations + the three transpositions acting on semi-axes, eigenstrain and, for the misaligned crystal, the stiffness) on the three Lebedev tables, the octant and the whole-sphere mid-point grid of setIntegrationIntervals and an injected Gauss-Legendre rule: 1e-9 where the relabelling maps the node table onto itself (measured on the table: the shipped Lebedev tables are only invariant under the rotations about z), else the quadrature accuracy of the scheme (Lebedev 0.3 / 0.2 / 0.15 and reported under the finding lebedev-inexact-order* while the tables are inexact; octant grid 2e-2; 64x32 grid 4e-2; product rule 2e-5: the unchanged code stays below a third of each over 60 seeds); Eshelby tensor of prolate / oblate spheroids about each of x, y, z (Mura closed forms) and of tri-axial ellipsoids (elliptic integrals by adaptive quadrature) in an isotropic matrix, all 81 components, absolute tolerance per scheme 0.09 / 0.06 / 0.04 (Lebedev tables, measured worst 0.041 / 0.027 / 0.014), 1.5e-2 octant grid, 2e-2 whole-sphere grid, 1e-6 product rule (5e-5 tri-axial)',
     'object independence on the real code: several live StrainEnergy objects configured in interleaved order, each read after all were configured, equal a fresh single object given the same calls and hold the eigenstrain supplied to them; eps^2 / s^3 scaling and the closed form evaluated across objects',
 ]
 ASSUMPTIONS = [
@@ -2239,7 +2245,7 @@ def corr(ctx, oracle_only=False, scale=1):
                 'eigenstrain kind (dilatation, diagonal, full symmetric) x shape (sphere, prolate, oblate, triaxial) x quadrature order x rotation; setter sequences: random ops '
                 '(18 kinds) on all four initial shapes; order pairs: the same items supplied in two random orders; histories of one object: 3..22 (thorough 60) calls, 40 % observations '
                 '(compute on a pool of 3-4 aspect ratios x 2 sizes + random sizes, several radii at once, five energy variants, eqAR searches, a quarter of the histories repeat the same search), 60 % setters '
-                '(the 18 kinds, property assignment, setShape by name/instance, quadrature, inverse routine, aspect-ratio table settings); input forms: 6-10 forms per tensor x side x tensor kind (cubic, isotropic, rotated cubic). non-trivial = non-degenerate input (sequence of >= 3 ops); distinct = (kind tuple, index)')
+                '(the 18 kinds, property assignment, setShape by name/instance, quadrature, inverse routine, aspect-ratio table settings); input forms: 6-10 forms per tensor x side x tensor kind (cubic, isotropic, rotated cubic); orientation: matrix kind (isotropic, cubic, misaligned cubic) x shape (tri-axial with a random longest axis and axis ratios 1.25-1.8 between neighbours, spheroid about x / y / z with aspect ratio 1.5-4 either way) x eigenstrain (diagonal with three different entries, full symmetric) x six quadrature schemes x relabellings. non-trivial = non-degenerate input (sequence of >= 3 ops); distinct = (kind tuple, index)')
     res.monitored = list(MONITORED)
     EF, LN = load()
     fast_points(EF, LN)
